@@ -77,6 +77,7 @@ pub fn gen_sem_case(t: &mut Tape, o: SemOpts) -> SemCase {
         // C07: control flow must not depend on the indeterminates
         p.signal_conditions = false;
         p.poly_bias = 150;
+        p.data_ternary_chance = 70;
         if !template {
             p.data_params = true;
         }
